@@ -334,7 +334,7 @@ Non-trivial = length not a multiple of 4, or a read schedule containing a chunk 
     ctx.section = "structured".into();
     ctx.drive_list(&part, cases, false);
     ctx.section = "random".into();
-    let n = ctx.tier.pick(100_000u64, 1_000_000);
+    let n = ctx.tier.pick(100_000u64, 4_000_000);
     ctx.drive_proptest(&part, case_strategy(), n, 2000);
     ctx.section.clear();
 }
